@@ -4,6 +4,7 @@ package simmeta
 import (
 	"context"
 	"errors"
+	"sort"
 	"sync"
 
 	commonv1 "github.com/apache/skywalking-banyandb/api/proto/banyandb/common/v1"
@@ -66,9 +67,47 @@ func (f *Repo) RegisterHandler(_ string, kind schema.Kind, h schema.EventHandler
 	}
 	h.OnInit(kinds)
 	f.mu.Lock()
-	defer f.mu.Unlock()
 	for _, k := range kinds {
 		f.handlers[k] = append(f.handlers[k], h)
+	}
+	// initial sync: a freshly registered watcher is told the current state, in a fixed order
+	type ev struct {
+		md   *commonv1.Metadata
+		spec schema.Spec
+		kind schema.Kind
+	}
+	var evs []ev
+	for _, k := range kinds {
+		switch k {
+		case schema.KindGroup:
+			for _, n := range sortedKeys(f.groups) {
+				evs = append(evs, ev{kind: k, md: f.groups[n].Metadata, spec: f.groups[n]})
+			}
+		case schema.KindMeasure:
+			for _, n := range sortedKeys(f.measures) {
+				evs = append(evs, ev{kind: k, md: f.measures[n].Metadata, spec: f.measures[n]})
+			}
+		case schema.KindStream:
+			for _, n := range sortedKeys(f.streams) {
+				evs = append(evs, ev{kind: k, md: f.streams[n].Metadata, spec: f.streams[n]})
+			}
+		case schema.KindTrace:
+			for _, n := range sortedKeys(f.traces) {
+				evs = append(evs, ev{kind: k, md: f.traces[n].Metadata, spec: f.traces[n]})
+			}
+		case schema.KindIndexRule:
+			for _, n := range sortedKeys(f.rules) {
+				evs = append(evs, ev{kind: k, md: f.rules[n].Metadata, spec: f.rules[n]})
+			}
+		case schema.KindIndexRuleBinding:
+			for _, n := range sortedKeys(f.bindings) {
+				evs = append(evs, ev{kind: k, md: f.bindings[n].Metadata, spec: f.bindings[n]})
+			}
+		}
+	}
+	f.mu.Unlock()
+	for _, x := range evs {
+		h.OnAddOrUpdate(schema.Metadata{TypeMeta: schema.TypeMeta{Kind: x.kind, Name: x.md.GetName(), Group: x.md.GetGroup(), ModRevision: x.md.GetModRevision()}, Spec: x.spec})
 	}
 }
 func (f *Repo) CollectDataInfo(context.Context, string) ([]*databasev1.DataInfo, []string, error) {
@@ -88,7 +127,8 @@ func (f *Repo) IndexRules(_ context.Context, subject *commonv1.Metadata) ([]*dat
 	f.mu.Lock()
 	defer f.mu.Unlock()
 	var out []*databasev1.IndexRule
-	for _, b := range f.bindings {
+	for _, bk := range sortedKeys(f.bindings) {
+		b := f.bindings[bk]
 		if b.GetMetadata().GetGroup() != subject.GetGroup() || b.GetSubject().GetName() != subject.GetName() {
 			continue
 		}
@@ -117,7 +157,8 @@ func (f *Repo) ListGroup(context.Context) ([]*commonv1.Group, error) {
 	f.mu.Lock()
 	defer f.mu.Unlock()
 	var out []*commonv1.Group
-	for _, g := range f.groups {
+	for _, gk := range sortedKeys(f.groups) {
+		g := f.groups[gk]
 		out = append(out, g)
 	}
 	return out, nil
@@ -148,8 +189,8 @@ func (f *Repo) ListMeasure(_ context.Context, opt schema.ListOpt) ([]*databasev1
 	f.mu.Lock()
 	defer f.mu.Unlock()
 	var out []*databasev1.Measure
-	for _, m := range f.measures {
-		if m.Metadata.Group == opt.Group {
+	for _, mk := range sortedKeys(f.measures) {
+		if m := f.measures[mk]; m.Metadata.Group == opt.Group {
 			out = append(out, m)
 		}
 	}
@@ -174,30 +215,84 @@ func (f *Repo) TopNAggregations(context.Context, *commonv1.Metadata) ([]*databas
 }
 
 // Stream.
-func (f *Repo) GetStream(context.Context, *commonv1.Metadata) (*databasev1.Stream, error) {
+func (f *Repo) GetStream(_ context.Context, md *commonv1.Metadata) (*databasev1.Stream, error) {
+	f.mu.Lock()
+	defer f.mu.Unlock()
+	if m, ok := f.streams[key(md)]; ok {
+		return m, nil
+	}
 	return nil, errNotFound
 }
-func (f *Repo) ListStream(context.Context, schema.ListOpt) ([]*databasev1.Stream, error) {
-	return nil, nil
+func (f *Repo) ListStream(_ context.Context, opt schema.ListOpt) ([]*databasev1.Stream, error) {
+	f.mu.Lock()
+	defer f.mu.Unlock()
+	var out []*databasev1.Stream
+	for _, k := range sortedKeys(f.streams) {
+		if m := f.streams[k]; m.Metadata.Group == opt.Group {
+			out = append(out, m)
+		}
+	}
+	return out, nil
 }
-func (f *Repo) CreateStream(context.Context, *databasev1.Stream) (int64, error) { return 0, nil }
-func (f *Repo) UpdateStream(context.Context, *databasev1.Stream) (int64, error) { return 0, nil }
+func (f *Repo) CreateStream(_ context.Context, m *databasev1.Stream) (int64, error) {
+	f.mu.Lock()
+	m.Metadata.ModRevision = f.nextRev()
+	f.streams[key(m.Metadata)] = m
+	f.mu.Unlock()
+	f.notify(schema.KindStream, m.Metadata, m)
+	return m.Metadata.ModRevision, nil
+}
+func (f *Repo) UpdateStream(ctx context.Context, m *databasev1.Stream) (int64, error) {
+	return f.CreateStream(ctx, m)
+}
 func (f *Repo) DeleteStream(context.Context, *commonv1.Metadata) (bool, int64, error) {
 	return false, 0, nil
 }
 
 // Trace.
-func (f *Repo) GetTrace(context.Context, *commonv1.Metadata) (*databasev1.Trace, error) {
+func (f *Repo) GetTrace(_ context.Context, md *commonv1.Metadata) (*databasev1.Trace, error) {
+	f.mu.Lock()
+	defer f.mu.Unlock()
+	if m, ok := f.traces[key(md)]; ok {
+		return m, nil
+	}
 	return nil, errNotFound
 }
-func (f *Repo) ListTrace(context.Context, schema.ListOpt) ([]*databasev1.Trace, error) {
-	return nil, nil
+func (f *Repo) ListTrace(_ context.Context, opt schema.ListOpt) ([]*databasev1.Trace, error) {
+	f.mu.Lock()
+	defer f.mu.Unlock()
+	var out []*databasev1.Trace
+	for _, k := range sortedKeys(f.traces) {
+		if m := f.traces[k]; m.Metadata.Group == opt.Group {
+			out = append(out, m)
+		}
+	}
+	return out, nil
 }
-func (f *Repo) CreateTrace(context.Context, *databasev1.Trace) (int64, error) { return 0, nil }
-func (f *Repo) UpdateTrace(context.Context, *databasev1.Trace) (int64, error) { return 0, nil }
+func (f *Repo) CreateTrace(_ context.Context, m *databasev1.Trace) (int64, error) {
+	f.mu.Lock()
+	m.Metadata.ModRevision = f.nextRev()
+	f.traces[key(m.Metadata)] = m
+	f.mu.Unlock()
+	f.notify(schema.KindTrace, m.Metadata, m)
+	return m.Metadata.ModRevision, nil
+}
+func (f *Repo) UpdateTrace(ctx context.Context, m *databasev1.Trace) (int64, error) {
+	return f.CreateTrace(ctx, m)
+}
 func (f *Repo) DeleteTrace(context.Context, *commonv1.Metadata) (bool, int64, error) {
 	return false, 0, nil
 }
+
+func sortedKeys[V any](m map[string]V) []string {
+	out := make([]string, 0, len(m))
+	for k := range m {
+		out = append(out, k)
+	}
+	sort.Strings(out)
+	return out
+}
+
 
 // IndexRule.
 func (f *Repo) GetIndexRule(_ context.Context, md *commonv1.Metadata) (*databasev1.IndexRule, error) {
@@ -212,7 +307,8 @@ func (f *Repo) ListIndexRule(_ context.Context, opt schema.ListOpt) ([]*database
 	f.mu.Lock()
 	defer f.mu.Unlock()
 	var out []*databasev1.IndexRule
-	for _, r := range f.rules {
+	for _, rk := range sortedKeys(f.rules) {
+		r := f.rules[rk]
 		if r.Metadata.Group == opt.Group {
 			out = append(out, r)
 		}
@@ -247,7 +343,8 @@ func (f *Repo) ListIndexRuleBinding(_ context.Context, opt schema.ListOpt) ([]*d
 	f.mu.Lock()
 	defer f.mu.Unlock()
 	var out []*databasev1.IndexRuleBinding
-	for _, r := range f.bindings {
+	for _, rk := range sortedKeys(f.bindings) {
+		r := f.bindings[rk]
 		if r.Metadata.Group == opt.Group {
 			out = append(out, r)
 		}
